@@ -772,6 +772,10 @@ func c07scenario(name string, t int, pre []c07call, threads map[string]c07call, 
 		}
 		return strings.Join(o, ",") + fmt.Sprint(cnt)
 	}
+	// When entries can disappear again (expiry, eviction of never-expiring duties beyond the per-share cap) the final
+	// state is no ground truth for what was stored when a trigger fired: triggers are then judged on their own
+	// (exactly threshold, distinct shares, one root, at most once).
+	volatile := expiry > 0 || strings.HasPrefix(name, "exempt-eviction")
 	sc.Check = func(x *schedx.Exec) []schedx.Violation {
 		d := x.Data.(*c07bdata)
 		var out []schedx.Violation
@@ -790,7 +794,7 @@ func c07scenario(name string, t int, pre []c07call, threads map[string]c07call, 
 			for pk, l := range tr.out {
 				k := key{Duty: tr.duty, PubKey: pk}
 				cnt[tr.sub][k]++
-				if expiry == 0 {
+				if !volatile {
 					if v := c07checkSet(tr.duty.Type, t, pk, l, final[k]); v != nil {
 						bad(v.sig, "%s", v.desc)
 					}
@@ -805,7 +809,7 @@ func c07scenario(name string, t int, pre []c07call, threads map[string]c07call, 
 					bad("kind=trigger-duplicate concurrent", "validator %s triggered %d times", k.PubKey, n)
 				}
 			}
-			if expiry == 0 {
+			if !volatile {
 				for k, l := range final {
 					if c07reached(k.Duty.Type, l, t) && cnt[sub][k] == 0 {
 						anyErr := false
